@@ -8,6 +8,11 @@
 
   All key-binding containers live in one object table `W.regs`; a wrapper refers to its
   children by index (children are created before their parents, so child index < own index).
+
+  A `Binding` carries `record_in_macro` (`rim`) and an identity `bid` (allocation counter
+  `W.nextB`): `add` and the copies made by `ConditionalKeyBindings._update_cache` are new objects,
+  merged / global-only / dynamic wrappers hand on the same objects.  `ropErr` says which exception
+  a failing `add` / `remove` raises.
 -/
 import Ptk.Model.C04F
 import Ptk.Gen.C04
@@ -25,6 +30,9 @@ structure Binding where
   filter : F
   eager : F
   isGlobal : F
+  rim : F := .always   -- `record_in_macro`
+  bid : Nat := 0       -- identity of the `Binding` object (`handler == self._previous_handler`
+                       -- in `_call_handler` compares Binding objects, i.e. by identity)
 deriving Repr, Inhabited
 
 /-- the `for i, j in zip(b.keys, keys)` loop: a mismatch is `i != j and i != Keys.Any` -/
@@ -88,25 +96,30 @@ deriving Repr, Inhabited
 /-- `_clear_cache` -/
 def KB.clearCache (k : KB) : KB := { k with ver := k.ver + 1, cFor := {}, cStart := {} }
 
-/-- `KeyBindings.add(*keys, filter, eager, is_global)(func)` with a plain function `func` -/
-def KB.add (k : KB) (keys : List Key) (hid : Nat) (filter eager isGlobal : Raw) : KB :=
+/-- `KeyBindings.add(*keys, filter, eager, is_global, record_in_macro)(func)` with a plain function
+    `func`; `bid` is the identity of the new `Binding` object -/
+def KB.add (k : KB) (keys : List Key) (hid : Nat) (filter eager isGlobal : Raw)
+    (rim : Raw := .b true) (bid : Nat := 0) : KB :=
   if filter.isNever then k
   else
     KB.clearCache { k with bs := k.bs ++ [{ keys := keys, hid := hid, filter := filter.toF,
-                                            eager := eager.toF, isGlobal := isGlobal.toF }] }
+                                            eager := eager.toF, isGlobal := isGlobal.toF,
+                                            rim := rim.toF, bid := bid }] }
 
 /-- `KeyBindings.add(...)(func)` where `func` is a `Binding` object (made by `key_binding(...)`):
     `filter = func.filter & to_filter(filter)`, `eager = to_filter(eager) | func.eager`,
-    `is_global = to_filter(is_global) | func.is_global` (evaluated in this order). -/
+    `is_global = to_filter(is_global) | func.is_global` (evaluated in this order),
+    `record_in_macro = func.record_in_macro`. -/
 def KB.addBinding (h : Heap) (k : KB) (keys : List Key) (func : Binding)
-    (filter eager isGlobal : Raw) : Heap × KB :=
+    (filter eager isGlobal : Raw) (bid : Nat := 0) : Heap × KB :=
   if filter.isNever then (h, k)
   else
     let (h1, f) := fAnd h func.filter filter.toF
     let (h2, e) := fOr h1 eager.toF func.eager
     let (h3, g) := fOr h2 isGlobal.toF func.isGlobal
     (h3, KB.clearCache { k with bs := k.bs ++ [{ keys := keys, hid := func.hid, filter := f,
-                                                 eager := e, isGlobal := g }] })
+                                                 eager := e, isGlobal := g, rim := func.rim,
+                                                 bid := bid }] })
 
 /-- `for b in self.bindings: if p(b): self.bindings.remove(b); found = True` — the list is
     mutated while it is iterated, so the element after each removed one is skipped. -/
@@ -175,6 +188,7 @@ structure W where
   heap : Heap := {}
   env : List Bool := []       -- values of the switchable conditions
   regs : List Reg := []
+  nextB : Nat := 1            -- allocation counter for `Binding` objects
 deriving Repr, Inhabited
 
 def envFn (env : List Bool) : Nat → Bool := fun v => env.getD v false
@@ -187,6 +201,11 @@ def condCopy (h : Heap) (flt : F) : List Binding → Heap × List Binding
     let r1 := fAnd h flt b.filter
     let r2 := condCopy r1.1 flt bs
     (r2.1, { b with filter := r1.2 } :: r2.2)
+
+/-- the copies made by `ConditionalKeyBindings._update_cache` are new `Binding` objects -/
+def renumber (nb : Nat) : List Binding → List Binding
+  | [] => []
+  | b :: bs => { b with bid := nb } :: renumber (nb + 1) bs
 
 /-- the five operations every `KeyBindingsBase` offers, as state transformers on the table -/
 structure Fns where
@@ -229,7 +248,9 @@ def updateWith (p : Fns) (w : W) (i : Nat) : W :=
     if !(last.beq r1.2) then
       let r2 := p.bindings r1.1 c                -- self.key_bindings.bindings
       let r3 := condCopy r2.1.heap flt r2.2
-      setReg { r2.1 with heap := r3.1 } i (.cond c flt { bs := r3.2 } r1.2)
+      let w3 := setReg { r2.1 with heap := r3.1 } i
+        (.cond c flt { bs := renumber r2.1.nextB r3.2 } r1.2)
+      { w3 with nextB := r2.1.nextB + r3.2.length }
     else r1.1
   | some (.merged cs _ last) =>
     let r1 := versionsOf p w cs
@@ -309,7 +330,7 @@ def W.fns (w : W) : Fns := Ptk.C04.fns (w.regs.length + 1)
 /-! ### operations on the table -/
 
 inductive ROp where
-  | add (r : Nat) (keys : List Key) (hid : Nat) (filter eager isGlobal : Raw)
+  | add (r : Nat) (keys : List Key) (hid : Nat) (filter eager isGlobal : Raw) (rim : Raw)
   | addB (r : Nat) (keys : List Key) (func : Binding) (filter eager isGlobal : Raw)
   | removeH (r : Nat) (hid : Nat)
   | removeK (r : Nat) (keys : List Key)
@@ -321,16 +342,18 @@ def listBeq (a b : List Key) : Bool := a == b
 /-- apply one registry operation; the flag is `false` when the real call raises
     (nothing found by `remove`) or the operation does not apply to that object -/
 def applyROp (w : W) : ROp → W × Bool
-  | .add r keys hid f e g =>
+  | .add r keys hid f e g m =>
     match w.regs[r]? with
-    | some (.kb k) => if keys.isEmpty then (w, false) else (setReg w r (.kb (k.add keys hid f e g)), true)
+    | some (.kb k) =>
+      if keys.isEmpty then (w, false)
+      else ({ setReg w r (.kb (k.add keys hid f e g m w.nextB)) with nextB := w.nextB + 1 }, true)
     | _ => (w, false)
   | .addB r keys func f e g =>
     match w.regs[r]? with
     | some (.kb k) =>
       if keys.isEmpty then (w, false) else
-      let x := k.addBinding w.heap keys func f e g
-      (setReg { w with heap := x.1 } r (.kb x.2), true)
+      let x := k.addBinding w.heap keys func f e g w.nextB
+      ({ setReg { w with heap := x.1 } r (.kb x.2) with nextB := w.nextB + 1 }, true)
     | _ => (w, false)
   | .removeH r hid =>
     match w.regs[r]? with
@@ -353,6 +376,32 @@ def applyROp (w : W) : ROp → W × Bool
       | some t' => if t' < d then (setReg w d (.dyn t dummy), true) else (w, false)
       | none => (setReg w d (.dyn none dummy), true)
     | _ => (w, false)
+
+/-- which exception the real call raises when `applyROp` reports failure on a registry
+    (`KeyBindings.remove`: nothing found).  Removing by handler raises the documented `ValueError`;
+    removing by keys reaches `raise ValueError(f"Binding not found: {function!r}")` with the
+    local `function` unbound, so an `UnboundLocalError` comes out instead — unless the tree has
+    proposed_fixes/C04-remove-unknown-keys.diff applied (`Gen.C04.rmkValueError`, probed from the
+    running code on every run). -/
+inductive RopErr where
+  | valueError
+  | unboundLocal
+  | assertion      -- `assert keys` in `add`
+deriving Repr, DecidableEq
+
+def ropErr (w : W) (op : ROp) : Option RopErr :=
+  if (applyROp w op).2 then none
+  else match op with
+    | .removeH r _ => match w.regs[r]? with | some (.kb _) => some .valueError | _ => none
+    | .removeK r ks =>
+      -- (`remove()` without arguments is an IndexError at `args[0]`: outside the API, not modelled)
+      if ks.isEmpty then none else
+      match w.regs[r]? with
+      | some (.kb _) => some (if Gen.C04.rmkValueError then .valueError else .unboundLocal)
+      | _ => none
+    | .add r _ _ _ _ _ _ => match w.regs[r]? with | some (.kb _) => some .assertion | _ => none
+    | .addB r _ _ _ _ _ => match w.regs[r]? with | some (.kb _) => some .assertion | _ => none
+    | .target _ _ => none
 
 /-- constructors: the new object gets the next table index; children must already exist -/
 inductive Mk where
